@@ -153,14 +153,14 @@ def canon_triplets(result):
     return out
 
 
-def diff_triplets(observed, expected):
+def diff_triplets(observed, expected, self_mode=True):
     """Classify the difference between two triplet Counters; returns (shape, detail) or None."""
     if observed == expected:
         return None
     rep = [t for t, c in observed.items() if c > 1 and expected.get(t, 0) <= 1]
     obs_pairs = {(i, j): d for (i, j, d) in observed}
     exp_pairs = {(i, j): d for (i, j, d) in expected}
-    selfp = [t for t in observed if t[0] == t[1] and t not in expected]
+    selfp = [t for t in observed if t[0] == t[1] and t not in expected] if self_mode else []
     missing = [t for t in expected if (t[0], t[1]) not in obs_pairs]
     spurious = [t for t in observed if (t[0], t[1]) not in exp_pairs]
     wrongd = [(t, exp_pairs[(t[0], t[1])]) for t in observed
